@@ -182,5 +182,8 @@ SparseDot(r, x) == SparseDotTo(r, x, Len(r))
 \* tolerance of a recomputed sum: quantisation of the operands (slack/2), of the result (1), single-precision
 \* accumulation (2^-12 of the sum of magnitudes: an upper bound for <= 10^3 terms)
 SumTol(slack, mag) == (slack + 1) \div 2 + 2 + mag \div 4096
+\* on-the-fly projector against the recorded row of the matrix: RowTol on every term in addition
+OtfClose(obs, r, x, offset) ==
+  obs # FxBad /\ Abs(obs - offset - SparseDot(r, x)) <= SumTol(SparseAbsTo(r, x, Len(r)), SparseMagTo(r, x, Len(r))) + RowAbsTol * Len(r) + SparseMagTo(r, x, Len(r)) \div 4096
 FwdClose(obs, r, x) == obs # FxBad /\ Abs(obs - SparseDot(r, x)) <= SumTol(SparseAbsTo(r, x, Len(r)), SparseMagTo(r, x, Len(r)))
 =============================================================================
